@@ -578,6 +578,9 @@ struct Hier {
     zones: Vec<Zone>, // [root, tld, zone.tld]
     ta_text: String,
     now: u32,
+    /// the validator's wall clock reads this value (instead of the real time) while an answer of
+    /// this hierarchy is validated: the signature windows of the hierarchy lie around it
+    clock: Option<u32>,
     /// attacker's key for zone.tld with the same key tag and algorithm as the real one
     forged: Option<(Arc<SKey>, Vec<u8>)>,
     /// zone.tld's DNSKEY RRset lists a second, non-signing key with the same algorithm and key tag first
@@ -742,6 +745,7 @@ fn build_hier(spec: Spec, now: u32) -> Hier {
         },
         ta_text: format!(". 3600 IN DNSKEY {ta}"),
         now,
+        clock: None,
         forged,
         decoy,
         key_texts,
@@ -1380,7 +1384,30 @@ fn state_name(s: ValidationState) -> &'static str {
 }
 
 /// One execution through `ValidationContext::validate_msg`.
+/// Moves the validator's clocks of this thread (hook `verif_clock`) so that its wall clock reads the
+/// hierarchy's `clock` value; put back when the execution ends, however it ends.
+struct ClockGuard;
+impl ClockGuard {
+    fn set(h: &Hier) -> ClockGuard {
+        let off = match h.clock {
+            Some(t) => {
+                let real = std::time::SystemTime::now().duration_since(std::time::UNIX_EPOCH).unwrap().as_secs() as u32;
+                t.wrapping_sub(real) as u64
+            }
+            None => 0,
+        };
+        verif_clock::set_offset_secs(off);
+        ClockGuard
+    }
+}
+impl Drop for ClockGuard {
+    fn drop(&mut self) {
+        verif_clock::set_offset_secs(0);
+    }
+}
+
 fn run_direct(h: &Arc<Hier>, q: &Query, faults: &Arc<Vec<Fault>>) -> Exec {
+    let _clock = ClockGuard::set(h);
     let st = Arc::new(UpState::default());
     let up = Upstream { h: h.clone(), faults: faults.clone(), st: st.clone(), main: false, main_ad: false, main_opt: false };
     let mainup = Upstream { h: h.clone(), faults: faults.clone(), st: st.clone(), main: true, main_ad: false, main_opt: false };
@@ -1419,6 +1446,7 @@ fn run_direct(h: &Arc<Hier>, q: &Query, faults: &Arc<Vec<Fault>>) -> Exec {
 /// One execution through `net::client::validator::Connection` (AD bit /
 /// SERVFAIL are the observations).
 fn run_conn(h: &Arc<Hier>, q: &Query, faults: &Arc<Vec<Fault>>) -> Exec {
+    let _clock = ClockGuard::set(h);
     let st = Arc::new(UpState::default());
     let up = Upstream { h: h.clone(), faults: faults.clone(), st: st.clone(), main: false, main_ad: false, main_opt: false };
     let mainup = Upstream { h: h.clone(), faults: faults.clone(), st: st.clone(), main: true, main_ad: false, main_opt: false };
@@ -4321,7 +4349,29 @@ fn main() {
         hs("S7-nsec3-secure-zone-with-150-iterations", n3(1, 150), false, None),
     ]);
     let s7 = specs.len() - 1;
-    let hiers: Vec<Arc<Hier>> = specs.par_iter().map(|s| Arc::new(build_hier(s.clone(), now))).collect();
+    // the S1 hierarchy signed around four other readings of the wall clock, the validator's clock set to
+    // that reading (hook verif_clock): signature times are 32-bit serial numbers (RFC 4034 3.1.5), the
+    // validity windows straddle the 2^32 wrap resp. the 2^31 sign boundary
+    let wrap0 = specs.len();
+    let wrap_clocks: [(&'static str, u32); 4] = [
+        ("W1-nsec-secure-clock-12h-before-the-2^32-wrap", 0xFFFF_FFFFu32 - 43_200),
+        ("W2-nsec-secure-clock-12h-after-the-2^32-wrap", 43_200),
+        ("W3-nsec-secure-clock-12h-before-2^31", 0x8000_0000u32 - 43_200),
+        ("W4-nsec-secure-clock-12h-after-2^31", 0x8000_0000u32 + 43_200),
+    ];
+    for (n, _) in wrap_clocks {
+        specs.push(Spec { name: n, kind: Kind::Secure, nsec3: false, opt_out: false, decoy: false, extra: false, zone_denial: None, records_changed: false, zsk: None });
+    }
+    let hiers: Vec<Arc<Hier>> = specs
+        .par_iter()
+        .enumerate()
+        .map(|(i, s)| {
+            let clock = if i >= wrap0 { Some(wrap_clocks[i - wrap0].1) } else { None };
+            let mut h = build_hier(s.clone(), clock.unwrap_or(now));
+            h.clock = clock;
+            Arc::new(h)
+        })
+        .collect();
     let run = Run { ctx: ctx.clone(), stats: Stats::new(), hiers, verbose: ctx.replay.is_some() };
 
     // time passes on one context: virtual clock base and the query menus per scenario
@@ -4458,6 +4508,15 @@ fn main() {
                 }
                 plan.push((hi, q(r, T_A), 1, 0));
             }
+        }
+    }
+    // clock-wrap hierarchies: the positive answer with every single fault (expired / not yet valid
+    // signatures among them), the other answer kinds unmodified (quick) or with every fault (thorough)
+    for k in 0..wrap_clocks.len() {
+        let hi = wrap0 + k;
+        plan.push((hi, q("www.zone.tld.", T_A), if quick && k >= 2 { 2 } else { 0 }, 0));
+        for qq in [q("nx.zone.tld.", T_A), q("x.w.zone.tld.", T_A), q("zone.tld.", T_DS)] {
+            plan.push((hi, qq, if quick { 2 } else { 0 }, 0));
         }
     }
     let counts = Mutex::new(BTreeMap::new());
